@@ -13,7 +13,7 @@
    opcode of the rule set decodes to [I_INVALID] (jump_table.go: opUndefined).
 
    Names other families rely on (keep stable):
-     fork fk_clz fk_7702 fk_is_precompile fk_precompile fk_keccak (instances: EVM/Forks.v)
+     fork fk_clz fk_7702 fk_is_precompile fk_precompile fk_keccak fk_8024 (instances: EVM/Forks.v)
      unop binop terop env0 env1 acct1 copyop callop instr decode stack_req
      const_gas stack_limit
    No proofs in this file. *)
@@ -30,7 +30,8 @@ Record fork := mk_fork {
   fk_7702 : bool;                                       (* EIP-7702 delegation resolution in the CALL family (Prague) *)
   fk_is_precompile : N -> bool;                         (* evm.precompile(addr) *)
   fk_precompile : N -> list N -> N * option (list N);
-  fk_keccak : list N -> list N                          (* Keccak-256; instantiated in EVM/Forks.v *)
+  fk_keccak : list N -> list N;                         (* Keccak-256; instantiated in EVM/Forks.v *)
+  fk_8024 : bool                                        (* EIP-8024 DUPN / SWAPN / EXCHANGE (Amsterdam; jump table "Osaka + EIP 8024") *)
 }.
 
 Inductive unop := U_ISZERO | U_NOT | U_CLZ.
@@ -60,9 +61,22 @@ Inductive instr :=
 | I_SWAP (n : nat)            (* SWAP(n+1): n = 0..15 *)
 | I_LOG (n : nat)             (* LOG0..LOG4 *)
 | I_CREATE | I_CREATE2 | I_call (k : callop) | I_RETURN | I_REVERT | I_INVALID
-| I_SELFDESTRUCT.
+| I_SELFDESTRUCT
+(* EIP-8024, one immediate byte.  Positions are 0-based from the top of the stack. *)
+| I_DUPN (n : nat)            (* duplicate item n         (DUPN of depth n+1) *)
+| I_SWAPN (n : nat)           (* swap top with item n+1   (SWAPN of depth n+1) *)
+| I_EXCHANGE (n m : nat)      (* swap items n and m *)
+| I_IMMBAD (dup : bool).      (* forbidden immediate: invalid opcode, after the jump table's stack check of DUPN (1, 2) / SWAPN, EXCHANGE (2, 2) *)
 
-Definition decode (fk : fork) (op : N) : instr :=
+(* instructions.go: decodeSingle / decodePair *)
+Definition decode_single (x : N) : N := (x + 145) mod 256.
+Definition decode_pair (x : N) : N * N :=
+  let k := N.lxor x 143 in
+  let q := k / 16 in let r := k mod 16 in
+  if q <? r then (q + 1, r + 1) else (r + 1, 29 - q).
+
+(* [imm] = the byte after the opcode (0 beyond the end of the code) *)
+Definition decode (fk : fork) (op imm : N) : instr :=
   match op with
   | 0 => I_STOP | 1 => I_bin B_ADD | 2 => I_bin B_MUL | 3 => I_bin B_SUB | 4 => I_bin B_DIV
   | 5 => I_bin B_SDIV | 6 => I_bin B_MOD | 7 => I_bin B_SMOD | 8 => I_ter T_ADDMOD
@@ -90,6 +104,18 @@ Definition decode (fk : fork) (op : N) : instr :=
   | 240 => I_CREATE | 241 => I_call K_CALL | 242 => I_call K_CALLCODE | 243 => I_RETURN
   | 244 => I_call K_DELEGATECALL | 245 => I_CREATE2 | 250 => I_call K_STATICCALL
   | 253 => I_REVERT | 255 => I_SELFDESTRUCT
+  | 230 => if fk_8024 fk then
+             if (90 <? imm) && (imm <? 128) then I_IMMBAD true
+             else I_DUPN (N.to_nat (decode_single imm) - 1)
+           else I_INVALID
+  | 231 => if fk_8024 fk then
+             if (90 <? imm) && (imm <? 128) then I_IMMBAD false
+             else I_SWAPN (N.to_nat (decode_single imm) - 1)
+           else I_INVALID
+  | 232 => if fk_8024 fk then
+             if (81 <? imm) && (imm <? 128) then I_IMMBAD false
+             else let '(n, m) := decode_pair imm in I_EXCHANGE (N.to_nat n) (N.to_nat m)
+           else I_INVALID
   | _ =>
       if (96 <=? op) && (op <=? 127) then I_PUSH (N.to_nat (op - 95))
       else if (128 <=? op) && (op <=? 143) then I_DUP (N.to_nat (op - 128))
@@ -114,8 +140,11 @@ Definition stack_req (i : instr) : nat * nat :=
   | I_EXTCODECOPY => (4, 0)
   | I_POP | I_JUMP | I_SELFDESTRUCT => (1, 0)
   | I_MSTORE | I_MSTORE8 | I_SSTORE | I_JUMPI | I_TSTORE | I_RETURN | I_REVERT => (2, 0)
-  | I_DUP n => (S n, S (S n))
-  | I_SWAP n => (S (S n), S (S n))
+  | I_DUP n | I_DUPN n => (S n, S (S n))
+  | I_SWAP n | I_SWAPN n => (S (S n), S (S n))
+  | I_EXCHANGE n m => (S (Nat.max n m), S (Nat.max n m))
+  | I_IMMBAD true => (1, 2)
+  | I_IMMBAD false => (2, 2)
   | I_LOG n => (n + 2, 0)
   | I_CREATE => (3, 1)
   | I_CREATE2 => (4, 1)
@@ -151,7 +180,7 @@ Definition const_gas (i : instr) : N :=
   | I_SLOAD | I_SSTORE => 0                          (* dynamic only *)
   | I_JUMP => 8 | I_JUMPI => 10 | I_JUMPDEST => 1
   | I_TSTORE => 100
-  | I_PUSH _ | I_DUP _ | I_SWAP _ => 3
+  | I_PUSH _ | I_DUP _ | I_SWAP _ | I_DUPN _ | I_SWAPN _ | I_EXCHANGE _ _ | I_IMMBAD _ => 3
   | I_LOG _ => 0                                     (* dynamic only *)
   | I_CREATE | I_CREATE2 => 32000
   | I_call _ => 100
